@@ -119,7 +119,7 @@ class Ctx:
         wall = time.time() - self.t0
         cov = {
             'obligations': self.obligations,
-            'discharged': self.discharged + len(listed),
+            'discharged': self.discharged,
             'known_findings': len(listed),
             'inconclusive': len(self.inconclusive),
             'evaluations': self.obligations,
